@@ -413,7 +413,16 @@ impl Model {
                 _ => true,
             })
             .collect();
-        let want: Vec<&Tag> = want_tags.iter().collect();
+        // a deleteStream names its stream in the argument; on which message stream the command
+        // itself travels is not part of the statement
+        let norm = |t: &Tag| -> Tag {
+            match t {
+                Tag::Command { name, txid_bits, arg0, arg1, .. } if name == "deleteStream" => Tag::Command { name: name.clone(), txid_bits: *txid_bits, msid: 0, arg0: arg0.clone(), arg1: arg1.clone() },
+                other => other.clone(),
+            }
+        };
+        let relevant: Vec<Tag> = relevant.into_iter().map(norm).collect();
+        let want: Vec<Tag> = want_tags.iter().map(norm).collect();
         if relevant != want {
             let clause = match (op, want.first()) {
                 (Op::Ping { .. }, _) => "ping-request-not-echoed",
